@@ -140,7 +140,7 @@ pub fn small_cfg(rng: &mut Rng) -> TreeCfg {
 ///   three-level tree.
 pub fn generate(ctx: &mut Ctx, allow_filters: bool) -> Vec<Value> {
     let mut cases = Vec::new();
-    let n = ctx.budget(28, 900);
+    let n = ctx.budget(36, 900);
     for i in 0..n {
         let mut rng = ctx.rng.fork();
         let cfg = small_cfg(&mut rng);
@@ -265,7 +265,7 @@ fn sweep(ctx: &mut Ctx) -> Vec<Value> {
             for kind in OBJ_FAULTS {
                 // Quick tier: every fault kind once per object class, rotating.
                 k += 1;
-                if !thorough && (k + ctx.seed) % 4 != 0 { continue }
+                if !thorough && (k + ctx.seed) % 3 != 0 { continue }
                 let mut tree = base.clone();
                 let Some(f) = obj_fault(&mut tree.world, ca, 0, idx, kind, T0) else { continue };
                 let extra = json!({"base": to_json(&Scenario {
